@@ -9,7 +9,7 @@ the edit and R_pre/R_post the snapshots after save+load of the object before/aft
 edit, every path unchanged live must be unchanged across the reload (R_post == R_pre)
 and every path changed live must show the new value (R_post == N(S_post)).
 """
-from .. import builder, env, files, seeds, simio, snapshot  # noqa: F401
+from .. import builder, env, files, seeds, simio, snapshot, noise  # noqa: F401
 from ..runner import Acc
 from ..simio import Ctx, HarnessTimeout, active
 from . import c01
@@ -92,6 +92,9 @@ def execute(case):
     nontrivial = False
     for i, op in enumerate(case["ops"]):
         k = op["k"]
+        if k == "bgload":
+            noise.run(op)
+            continue
         try:
             if k == "load":
                 label = files.spec_label(op["file"])
@@ -225,6 +228,7 @@ def generate(seed, i, tier="quick", spec=None):
             else:
                 edits.append(dict(gen_edit(r), s=r.randrange(100000)))
         ops.append({"k": "edit", "edits": edits})
+    noise.sprinkle(r, ops)
     return {"property": PROPERTY, "world": "store-from-files", "layout": 2, "ops": ops}
 
 
